@@ -162,6 +162,13 @@ inductive CBeh where
   | answers (r : String)
   /-- `return None, None` -/
   | silent
+  /-- hands back a response of its own making whatever the message is: `return
+  create_response(<some id>, …), sid` (an acknowledgement built from the params, a foreign id, or any
+  object that is not a response to this message) -/
+  | acks (i : Id) (s : Option Sid)
+  /-- legacy `JSONRPCMessage.create_response(message.id, r)`: accepts a missing id, so it hands back an
+  envelope for a notification too -/
+  | echoes (r : String)
   | raises
   /-- returns something that is not a pair -/
   | returnsNonsense
@@ -224,8 +231,17 @@ def hCustom (b : CBeh) : Handler := fun m =>
   match b with
   | .answers r => respond m (.custom r) none
   | .silent => .ret none none
+  | .acks i s => .ret (some (.result i (.custom "ack"))) s
+  | .echoes r => .ret (some (.result (m.id.getD (.str "")) (.custom r))) none
   | .raises => .raise
   | .returnsNonsense => .nonsense
+
+/-- custom behaviours that answer the request they are given (or fail); the others leave a request
+without a response of its own and are the application's responsibility -/
+def CBeh.Proper : CBeh → Prop
+  | .silent => False
+  | .acks _ _ => False
+  | _ => True
 
 /-- the method table of an `MCPServer`: `register_method` entries override the built-in ones -/
 def serverRegWith (hInit'd : Handler) (S : Server) : Registry := fun meth =>
